@@ -146,7 +146,8 @@ def _brief(x):
     return repr(x)
 
 
-NUMBER_PROBES = ['0', '7', '12.5', '1e3', '2.5e3', '1.25e-2', '1.0e2', '5e-1', '007', '0.50', '123456789', '3.14159', '6e0', '10.01e1']
+NUMBER_PROBES = ['0', '7', '12.5', '1e3', '2.5e3', '1.25e-2', '1.0e2', '5e-1', '007', '0.50', '123456789', '3.14159', '6e0', '10.01e1',
+                 '100000.25', '1234567.25', '0.000001234', '123456789012345', '0.1', '1e15', '9007199254740993', '2.5e-7']
 
 
 def number_literal_obligations(run: Run, rule: str, src, g):
